@@ -19,45 +19,49 @@ import stixgen
 import tr_tables
 
 MANIFEST = {
-    "text": "PROVED (Coq, closed under the global context), for an ARBITRARY class table w and specification table sp, every "
-            "input JSON value, every fuel: strict_sound_partial / strict_sound_partial_wide -- if world_refines w sp = true "
-            "(decidable table refinement, kernel-evaluated on the tables regenerated from /repo on every run: "
-            "lib_refines_spec_modulo_failures), the variant is the repaired one at every C02 defect site (variant_sound), the "
-            "request is strict and non-interoperability (req_strict) and in scope (req_scope: no custom_properties member, no "
-            "extension-definition-- key, no toplevel-property-extension marker), and the result class satisfies the explicit "
-            "coverage predicate class_proved2, then a successful construct / parse / parse_observable returns an object "
-            "without custom flag whose serialization the specification validator accepts. Proof: per-kind soundness lemmas, "
-            "object-level lemma, co-constraint soundness, induction over the construct/parse knot. class_proved2 holds for 120 "
-            "of the 123 generated classes (kernel-computed lists lib_covered / lib_covered2 in the evidence); NOT covered: "
-            "2.0/MarkingDefinition (it is the known finding C02-v20-marking-definition-created-without-milliseconds) and both "
-            "Bundle classes (a bundle may carry a 2.0 marking-definition). Three strict_sound_refuted_* theorems give, for the "
-            "defective variants ($ anchors, uuid text, empty extensions), a strict in-scope request whose output is refused "
-            "for every validator fuel. THREE RULES AUDITED LATER (2026-09-29): (a) created <= modified is a co-constraint of "
-            "the frozen tables (audited override), hence inside valid_obj and inside the theorems -- on a tree that does not "
-            "check it the refinement names constraint|<class>|0 for the 37 classes with both properties and the theorem's "
-            "instance is about the specification relaxed at exactly those places; (b) strict RFC 4648 base64 for binary "
-            "properties, (c) no null / empty list inside dictionary values and (d) the `definition` of a marking-definition is "
-            "of the marking type `definition_type` names are in valid_obj_x = valid_obj + leaf_extra + marking_match, "
-            "which is what the ORACLE evaluates; the soundness theorems are about valid_obj and do NOT cover (b)-(d). Proved "
-            "about them: audited_clauses_are_all (valid_obj_x is the knot of valid_obj with exactly the clauses leaf_extra and "
-            "marking_match: with both trivial it IS valid_obj), audited_validator_strengthens (valid_obj_x implies valid_obj), "
-            "binary_clause_sound (kind level, any mode: with the strict decoder -- vr_b64_strict, the code since fix 9d2a776 -- "
-            "BinaryProperty.clean returns only text the base64 clause accepts; not lifted to objects) and three more refutations "
-            "(strict_sound_refuted_binary_not_base64: lenient-decoder variant; _dictionary_null_value: pinned and repaired "
-            "variant alike; _modified_before_created: the regenerated tables minus the time-order rule). CORRESPONDENCE / "
-            "ORACLE ONLY (not proved): the uncovered classes, inputs outside req_scope, interoperability mode, allow_custom "
-            "mode, Python-only argument values (incl. already constructed objects given as property values), state kept "
-            "between calls, rules (b)-(d).",
+    "text": "PROVED (Coq, closed under the global context; Props/C02.v 16 theorems, Props/C02Cov.v), for an ARBITRARY class "
+            "table w and specification table sp, every input JSON value, every fuel: strict_sound_partial / "
+            "strict_sound_partial_wide -- if world_refines w sp = true (decidable table refinement, kernel-evaluated on the "
+            "tables regenerated from /repo on every run: lib_refines_spec_modulo_failures), the variant is the repaired one "
+            "at every C02 defect site (variant_sound), the request is strict and non-interoperability (req_strict) and in "
+            "scope (req_scope: no custom_properties member, no extension-definition-- key, no toplevel-property-extension "
+            "marker), and the result class satisfies the explicit coverage predicate class_proved2, then a successful "
+            "construct / parse / parse_observable returns an object without custom flag whose serialization the "
+            "specification validator valid_obj accepts. class_proved2 holds for 120 of the 123 generated classes (kernel-"
+            "computed lists in the evidence); NOT covered: 2.0/MarkingDefinition (known finding C02-v20-marking-definition-"
+            "created-without-milliseconds) and both Bundle classes. WHAT THE INSTANCE ON THE CURRENT TREE SAYS: the "
+            "_generated_tables theorems speak about spec_relaxed = the frozen specification WEAKENED at the 38 places "
+            "refine_failures names today -- kind|2.0/MarkingDefinition|created and constraint|<class>|0 for the 37 classes "
+            "that carry created and modified -- so the headline theorem does NOT establish modified >= created on this tree: "
+            "the library does not check it (known finding C02-modified-before-created, repair kept in proposed_fixes/, not "
+            "applied because it refuses data existing producers hold); every one of the 38 places is matched on every run by "
+            "a found input (else a broken obligation). THE VALIDATOR: valid_obj is an independent evaluator over frozen "
+            "tables that were SEEDED from the pinned library's own tables (audited overrides: 2.1 confidence 0..100, 2.0 "
+            "marking-definition created millisecond-exact, created <= modified); it treats a 2.0 object reference as a "
+            "string. The ORACLE evaluates the stronger valid_obj_x = the same knot with exactly two more clauses "
+            "(audited_clauses_are_all proves that with both trivial it IS valid_obj): leaf_extra -- binary values are strict "
+            "RFC 4648 base64, dictionary values contain no null / empty list, every STIX 2.0 object reference (at the top of a "
+            "container member or inside its extensions / embedded objects) names a member of its container of an allowed type "
+            "-- and marking_match (definition is of the type definition_type names). The soundness theorems do NOT cover "
+            "these clauses; proved about them: audited_validator_strengthens, binary_clause_sound (kind level, strict decoder "
+            "= the code since fix 9d2a776), and refutations -- seven strict_sound_refuted_* theorems in all ($ anchors, uuid "
+            "text, empty extensions, socket-option booleans; lenient base64 decoder; dictionary null value in the pinned AND "
+            "the repaired variant; tables without the time-order rule): a strict in-scope request whose output is refused "
+            "for every validator fuel. Examples hypotheses_satisfiable_identity / process_output_valid_for_audited_validator "
+            "evaluate every hypothesis and the conclusion on concrete requests. CORRESPONDENCE / ORACLE ONLY (not proved): "
+            "the three uncovered classes, inputs outside req_scope, interoperability mode, allow_custom mode, Python-only "
+            "argument values (incl. already constructed objects given as property values), state kept between calls, the "
+            "valid_obj_x clauses (base64 beyond the kind lemma, dictionary values, object references, definition_type).",
     "design_ref": "DESIGN.md 6/C02, Appendix A.7; design_notes/C02-C03.md",
-    "note": "Trusted: Coq kernel + vm_compute; tr_tables translator (live classes of the tree under test; fail-closed); the "
-            "frozen specification tables /verif/spec (audited: 2.1 confidence 0..100, 2.0 marking-definition created "
-            "millisecond-exact, created <= modified on the 37 classes with both common properties; the rest seeded) and "
-            "Spec/StixValid.v (valid_obj_x: also strict base64, dictionary values); the stix2patterns validator as pattern oracle; the "
-            "C08 model for granular-marking selectors; the harness (generators, the output-repair classification of known "
-            "findings). The model-to-code tie is the correspondence run (exact output text and error class on ~2850 generated "
-            "calls per quick run, 24 run-time detected variant switches; the inherited part of _check_object_constraints is "
-            "matched by source text) plus the oracle: every strict success of the "
-            "implementation is serialized and judged by the kernel-evaluated validator.",
+    "note": "Trusted: Coq kernel + vm_compute; tr_tables translator (live classes of the tree under test; fail-closed; the "
+            "inherited _check_object_constraints is matched by source text); the frozen specification tables /verif/spec "
+            "(seeded from the pinned library, audited overrides on top) and Spec/StixValid.v; the stix2patterns validator as "
+            "pattern oracle; the C08 model for granular-marking selectors; the harness (generators, the output-repair "
+            "classification of known findings: an invalid emission counts as a known finding only if ONE named repair of the "
+            "output makes it valid). The model-to-code tie is the correspondence run (exact output text and error class on "
+            "~2300 generated calls per quick run, 24 run-time detected variant switches, worker under a local time zone 14 h "
+            "from UTC, JSON text / file-object argument forms, call sequences in one process) plus the oracle: every strict "
+            "success of the implementation is serialized and judged by the kernel-evaluated valid_obj_x.",
     "technique": "Coq proof over a hand-written interpreter model + tables generated from source; kernel-evaluated table "
                  "refinement naming the failing slot; correspondence + property oracle on the real implementation's output",
 }
@@ -753,12 +757,12 @@ def oracle(run, cases, impl, extra, pats):
         cls = classify_invalid([it for _, it in bad], pats)
         for (i, it), w, fids in zip(bad, why, cls):
             c = cases[i]
-            rep = {"case": {k: c[k] for k in ("op", "cid", "data", "allow", "interop", "py", "seq") if k in c}, "emitted": it[1],
+            rep = {"case": {k: c[k] for k in ("op", "cid", "data", "allow", "interop", "py", "seq", "form", "version") if k in c}, "emitted": it[1],
                    "class": it[0], "validator": w, "meta": c.get("meta")}
             if c.get("seq") is not None:
                 # the calls that ran before it in the same process are part of the input
                 sq = [x for x in cases if x.get("seq") == c["seq"]]
-                rep["sequence"] = [{k: x[k] for k in ("op", "cid", "data", "allow", "interop", "seq") if k in x} for x in sq]
+                rep["sequence"] = [{k: x[k] for k in ("op", "cid", "data", "allow", "interop", "seq", "form") if k in x} for x in sq]
                 rep["step"] = c["meta"].get("step")
             what = "%s %s strict success emits JSON the specification refuses (%s): %s" % (
                 c["op"], it[0], w.strip(), json.dumps(it[1])[:300])
@@ -813,7 +817,7 @@ def check(run):
     impl, extra = sc.run_impl_cases(cases)
     hist = {}
     for c, r in zip(cases, impl):
-        run.count({k: c[k] for k in ("op", "cid", "data", "allow", "interop", "py", "seq") if k in c}, nontrivial=not trivial(c, r))
+        run.count({k: c[k] for k in ("op", "cid", "data", "allow", "interop", "py", "seq", "form", "version") if k in c}, nontrivial=not trivial(c, r))
         key = "%s/%s/%s" % (c["meta"]["origin"], c["meta"].get("ckind", "-").split(":")[0].split("|")[0], r.split(" ")[0] if not r.startswith("ERR") else r[4:])
         hist[key] = hist.get(key, 0) + 1
     run.coverage["distribution"] = dict(sorted(hist.items()))
